@@ -24,11 +24,21 @@ impl RedoPathBuf {
     pub fn clone(&self) -> (r: RedoPathBuf) ensures r@ == self@ { unimplemented!() }
 }
 pub uninterp spec fn path_join(a: Seq<char>, b: Seq<char>) -> Seq<char>;
+/// R-generic: every path-like argument (`AsRef<Path>` / `NixPath`) is viewed as its characters
+pub trait PathLike { spec fn pview(&self) -> Seq<char>; }
+impl PathLike for PathBuf { open spec fn pview(&self) -> Seq<char> { self@ } }
+impl PathLike for RedoPathBuf { open spec fn pview(&self) -> Seq<char> { self@ } }
+impl PathLike for OsString { open spec fn pview(&self) -> Seq<char> { self@ } }
 impl PathBuf {
     pub uninterp spec fn view(&self) -> Seq<char>;
     /// TRUSTED (std::path::Path::join)
     #[verifier::external_body]
-    pub fn join(&self, p: &RedoPathBuf) -> (r: PathBuf) ensures r@ == path_join(self@, p@) { unimplemented!() }
+    pub fn join<P: PathLike>(&self, p: &P) -> (r: PathBuf) ensures r@ == path_join(self@, p.pview()) { unimplemented!() }
+    /// TRUSTED (PathBuf::new / PathBuf::push: push is join in place)
+    #[verifier::external_body]
+    pub fn new() -> (r: PathBuf) ensures r@ == Seq::<char>::empty() { unimplemented!() }
+    #[verifier::external_body]
+    pub fn push<P: PathLike>(&mut self, p: &P) ensures final(self)@ == path_join(old(self)@, p.pview()) { unimplemented!() }
     /// TRUSTED (std::path::Path::exists): does the path exist right now
     #[verifier::external_body]
     pub fn exists(&self) -> (r: bool) ensures r == path_exists(self@) { unimplemented!() }
